@@ -105,6 +105,13 @@ def gen(rng, tier):
             for k in rng.sample(["v_reset", "v_rest", "tau_ref", "dt", "spike_grad", "reset", "version", "name", "v_reset"], 3):
                 cases.append({"kind": "fields", "cls": cls, "mut": ["add", k, rng.choice(["zeros", "zero", "none", "empty", "false"])],
                               "depth": rng.choice([0, 1, 2]), "via": rng.choice(["dict2node", "graph", "file"]), "seed": seed})
+            # a key of type bytes that spells one of the node's OWN field names (dictionary path), and an unknown member stored
+            # with a null dataspace (file path)
+            for k in rng.sample(MANDATORY[cls] + ["metadata", "type"], min(2, len(MANDATORY[cls]) + 2)):
+                cases.append({"kind": "fields", "cls": cls, "mut": ["addbytes", k], "depth": rng.choice([0, 1, 2]),
+                              "via": rng.choice(["dict2node", "graph"]), "seed": seed})
+            cases.append({"kind": "fields", "cls": cls, "mut": ["add", rng.choice(["v_reset", "foo", "refractory"]), "h5empty"],
+                          "depth": rng.choice([1, 2]), "via": "file", "seed": seed})
             # an unknown member that is a LINK (soft / second hard link) to a member the node does have
             for kind in ["soft", "hard"]:
                 cases.append({"kind": "fields", "cls": cls, "mut": ["addlink", "zz_extra" if kind == "hard" else "alias", kind],
@@ -283,9 +290,15 @@ def run(c):
             if mut[1] in d:
                 return Outcome(None, None, False, ("present",) + tuple(mut))
             d[mut[1]] = {"arr": np.array([1, 2]), "zeros": np.zeros_like(some), "zero": 0.0, "none": np.zeros(()), "empty": np.zeros(0),
-                         "false": False}[kind]
+                         "false": False, "h5empty": h5py.Empty("f")}[kind]
             expect_ok = False
         elif mut[0] == "addlink":
+            expect_ok = False
+        elif mut[0] == "addbytes":
+            if mut[1] not in d:
+                return Outcome(None, None, False, ("absent",) + tuple(mut))
+            v0 = d[mut[1]]
+            d[mut[1].encode()] = np.zeros_like(v0) if isinstance(v0, np.ndarray) else ({} if isinstance(v0, dict) else "NIRGraph" if mut[1] == "type" else 0)
             expect_ok = False
         want_cls = c["cls"]
     full = wrap(d, depth)
@@ -327,6 +340,8 @@ def run(c):
         coq = f"(CRead {coq_in} {o})" if via == "file" else f"(CFromDict {coq_in} {o})"
     except Exception:
         coq = None     # an object the model has no term for was constructed: the oracle below reports it
+    if c["kind"] == "fields" and c["mut"][0] == "addbytes":
+        coq = None     # dictionary keys of the model are strings: a bytes key has no term; decided by the oracle alone
     fail = None
     desc = f"type={d.get('type')!r} via {via} depth {depth}" + (f" mutation {c['mut']} on {c['cls']}" if c["kind"] == "fields" else "")
     if obs[0] == "ok":
